@@ -53,11 +53,28 @@ Fin(neg, m, e) == IF m = <<>> THEN Zero(neg)
                   ELSE LET z == MTz(m) IN [t |-> "double", c |-> "fin", neg |-> neg, m |-> MShr(m, z), e |-> e + z]
 Indef == [t |-> "indef"]          \* the property does not fix this outcome in the model
 
-\* IEEE result of an exact dyadic value: representable -> itself; magnitude >= 2^1024 -> infinity; else indefinite
-Round(d) == IF d.c # "fin" THEN d
-            ELSE IF d.e + MBits(d.m) > 1024 THEN Inf(d.neg)
-            ELSE IF MBits(d.m) <= 53 /\ d.e >= -1074 THEN d
-            ELSE Indef
+\* IEEE-754 binary64 round-to-nearest, ties-to-even, of the exact value (m + f) * 2^e with 0 <= f < 1 (sticky <=> f > 0):
+\* keep 53 significant bits (fewer below 2^-1022: the exponent cannot go under -1074), magnitude >= 2^1024 after rounding -> infinity.
+\* With sticky the caller must supply at least 55 bits in m (so that f cannot decide the rounding alone).
+RoundNE(neg, m, e, sticky) ==
+  IF m = <<>> THEN (IF sticky THEN Indef ELSE Zero(neg))
+  ELSE LET b == MBits(m)
+           sh0 == IF b > 53 THEN b - 53 ELSE 0
+           sh == IF e + sh0 < -1074 THEN -1074 - e ELSE sh0
+       IN IF sh <= 0 THEN (IF sticky THEN Indef ELSE IF e + b > 1024 THEN Inf(neg) ELSE Fin(neg, m, e))
+          ELSE LET q == MShr(m, sh)
+                   r == MSub(m, MShl(q, sh))
+                   c == MCmp(MShl(r, 1), MPow2(sh))                   \* the discarded part against one half
+                   up == c > 0 \/ (c = 0 /\ (sticky \/ (q # <<>> /\ q[1] % 2 = 1)))
+                   q2 == IF up THEN MAdd(q, <<1>>) ELSE q
+               IN IF q2 = <<>> THEN Zero(neg) ELSE IF (e + sh) + MBits(q2) > 1024 THEN Inf(neg) ELSE Fin(neg, q2, e + sh)
+\* IEEE result of an exact dyadic value
+Round(d) == IF d.c # "fin" THEN d ELSE RoundNE(d.neg, d.m, d.e, FALSE)
+\* the correctly rounded quotient n / d * 2^e of two positive magnitudes (64 extra quotient bits + sticky remainder)
+RoundQuot(neg, n, d, e) ==
+  LET k == Max2(0, 66 + MBits(d) - MBits(n))
+      qr == MDivMod(MShl(n, k), d)
+  IN RoundNE(neg, qr[1], e - k, qr[2] # <<>>)
 
 DNeg(x) == IF x.c = "nan" THEN NaN ELSE [x EXCEPT !.neg = ~x.neg]
 
@@ -91,8 +108,7 @@ DDiv(x, y) ==
   ELSE IF y.c = "inf" THEN Zero(x.neg # y.neg)
   ELSE IF y.c = "zero" THEN Inf(x.neg # y.neg)          \* finite non-zero / +-0 = +-inf
   ELSE IF x.c = "zero" THEN Zero(x.neg # y.neg)
-  ELSE LET qr == MDivMod(x.m, y.m)                       \* odd / odd: exact iff remainder 0
-       IN IF qr[2] = <<>> THEN Round(Fin(x.neg # y.neg, qr[1], x.e - y.e)) ELSE Indef
+  ELSE RoundQuot(x.neg # y.neg, x.m, y.m, x.e - y.e)
 DOp(op, x, y) == CASE op = "+" -> DAdd(x, y) [] op = "-" -> DSub(x, y) [] op = "*" -> DMul(x, y) [] op = "/" -> DDiv(x, y)
 DOps == {"+", "-", "*", "/"}
 =============================================================================
